@@ -1,1 +1,564 @@
-fn main(){}
+//! filoom - E-LOOM: thread schedules of the real generic code of
+//! futures-intrusive, instantiated with a `lock_api::RawMutex` built on
+//! `loom::sync::Mutex`. Every internal lock/unlock of a primitive is a loom
+//! scheduling point; tasks are loom threads running `loom::future::block_on`,
+//! so a lost wake-up is a loom deadlock.
+//!
+//!   filoom list
+//!   filoom run <scenario> [--pb <preemption bound>|--pb none]
+//!
+//! A failing scenario panics (loom prints the reason); with
+//! LOOM_CHECKPOINT_FILE set the failing schedule is left on disk and a re-run
+//! with the same file replays exactly that schedule.
+
+use futures_intrusive::buffer::FixedHeapBuf;
+use futures_intrusive::channel::shared as sh;
+use futures_intrusive::channel::{GenericOneshotBroadcastChannel, GenericOneshotChannel, GenericStateBroadcastChannel, StateId};
+use futures_intrusive::sync::{GenericManualResetEvent, GenericMutex, GenericSemaphore, GenericSharedSemaphore};
+use futures_intrusive::timer::{Clock, GenericTimerService, Timer};
+use lock_api::{GuardSend, RawMutex};
+use loom::sync::{Arc, Mutex, MutexGuard};
+use std::future::Future;
+use std::sync::atomic::{AtomicU64, AtomicUsize, Ordering};
+use std::sync::OnceLock;
+use std::task::{Context, Poll, RawWaker, RawWakerVTable, Waker};
+
+/// RawMutex on top of a native loom mutex: lock() takes the loom mutex and
+/// stashes the guard, unlock() drops it. One loom operation per lock/unlock,
+/// real blocking semantics.
+pub struct LoomRaw {
+    inner: OnceLock<Mutex<()>>,
+    guard: std::cell::UnsafeCell<Option<MutexGuard<'static, ()>>>,
+}
+impl LoomRaw {
+    fn get(&self) -> &Mutex<()> {
+        self.inner.get_or_init(|| Mutex::new(()))
+    }
+}
+unsafe impl RawMutex for LoomRaw {
+    #[allow(clippy::declare_interior_mutable_const)]
+    const INIT: LoomRaw = LoomRaw { inner: OnceLock::new(), guard: std::cell::UnsafeCell::new(None) };
+    type GuardMarker = GuardSend;
+    fn lock(&self) {
+        let g = self.get().lock().unwrap();
+        unsafe { *self.guard.get() = Some(std::mem::transmute::<MutexGuard<'_, ()>, MutexGuard<'static, ()>>(g)) };
+    }
+    fn try_lock(&self) -> bool {
+        match self.get().try_lock() {
+            Ok(g) => {
+                unsafe { *self.guard.get() = Some(std::mem::transmute::<MutexGuard<'_, ()>, MutexGuard<'static, ()>>(g)) };
+                true
+            }
+            Err(_) => false,
+        }
+    }
+    unsafe fn unlock(&self) {
+        drop((*self.guard.get()).take());
+    }
+}
+unsafe impl Sync for LoomRaw {}
+unsafe impl Send for LoomRaw {}
+
+fn noop_waker() -> Waker {
+    fn c(_: *const ()) -> RawWaker {
+        RawWaker::new(std::ptr::null(), &VT)
+    }
+    fn n(_: *const ()) {}
+    static VT: RawWakerVTable = RawWakerVTable::new(c, n, n, n);
+    unsafe { Waker::from_raw(RawWaker::new(std::ptr::null(), &VT)) }
+}
+
+/// polls a future once with a waker that does nothing, then drops it: a task
+/// that "times out" / abandons its wait
+fn poll_once_and_drop<F: Future>(f: F) -> Option<F::Output> {
+    let mut f = Box::pin(f);
+    let w = noop_waker();
+    let mut cx = Context::from_waker(&w);
+    match f.as_mut().poll(&mut cx) {
+        Poll::Ready(v) => Some(v),
+        Poll::Pending => None,
+    }
+}
+
+/// non-atomic payload: two live guards, or a guard used without
+/// happens-before, is a loom causality violation
+struct Tracked(loom::cell::UnsafeCell<u32>);
+unsafe impl Send for Tracked {}
+impl Tracked {
+    fn new() -> Self {
+        Tracked(loom::cell::UnsafeCell::new(0))
+    }
+    fn incr(&self) {
+        self.0.with_mut(|p| unsafe { *p += 1 })
+    }
+    fn get(&self) -> u32 {
+        self.0.with(|p| unsafe { *p })
+    }
+}
+
+struct HClock(AtomicU64);
+impl Clock for HClock {
+    fn now(&self) -> u64 {
+        self.0.load(Ordering::SeqCst)
+    }
+}
+static CLK: HClock = HClock(AtomicU64::new(0));
+
+type Scenario = fn();
+
+// ------------------------------------------------------------------ mutex
+
+fn mutex_counter(fair: bool) {
+    let m = Arc::new(GenericMutex::<LoomRaw, Tracked>::new(Tracked::new(), fair));
+    let _ = m.is_locked();
+    let hs: Vec<_> = (0..2)
+        .map(|_| {
+            let m = m.clone();
+            loom::thread::spawn(move || {
+                loom::future::block_on(async {
+                    let g = m.lock().await;
+                    g.incr();
+                });
+            })
+        })
+        .collect();
+    loom::future::block_on(async {
+        let g = m.lock().await;
+        g.incr();
+    });
+    for h in hs {
+        h.join().unwrap();
+    }
+    assert!(!m.is_locked(), "C02: mutex still locked after all guards were dropped");
+    let g = m.try_lock().expect("C02/C03: mutex not lockable after all tasks finished");
+    assert_eq!(3, g.get(), "C02: lost update under the guard");
+}
+fn mutex_counter_fair() {
+    mutex_counter(true)
+}
+fn mutex_counter_unfair() {
+    mutex_counter(false)
+}
+
+/// one task locks twice, one task abandons its lock future after one poll, one try_lock barger
+fn mutex_abandon(fair: bool) {
+    let m = Arc::new(GenericMutex::<LoomRaw, Tracked>::new(Tracked::new(), fair));
+    let _ = m.is_locked();
+    let m1 = m.clone();
+    let h1 = loom::thread::spawn(move || {
+        // abandoning task: if it gets the lock at once it uses it
+        if let Some(g) = poll_once_and_drop(m1.lock()) {
+            g.incr();
+        }
+    });
+    let m2 = m.clone();
+    let h2 = loom::thread::spawn(move || {
+        loom::future::block_on(async {
+            let g = m2.lock().await;
+            g.incr();
+        });
+    });
+    loom::future::block_on(async {
+        let g = m.lock().await;
+        g.incr();
+    });
+    if let Some(g) = m.try_lock() {
+        g.incr();
+    }
+    h1.join().unwrap();
+    h2.join().unwrap();
+    let g = m.try_lock().expect("C03: mutex not lockable after all tasks finished");
+    assert!(g.get() >= 2);
+}
+fn mutex_abandon_fair() {
+    mutex_abandon(true)
+}
+fn mutex_abandon_unfair() {
+    mutex_abandon(false)
+}
+
+// -------------------------------------------------------------- semaphore
+
+/// three tasks acquire 2/1/1 of 2 permits with auto-release
+fn sem_mixed(fair: bool) {
+    let s = Arc::new(GenericSemaphore::<LoomRaw>::new(fair, 2));
+    let _ = s.permits();
+    let hs: Vec<_> = [2usize, 1]
+        .iter()
+        .map(|&n| {
+            let s = s.clone();
+            loom::thread::spawn(move || {
+                loom::future::block_on(async {
+                    let _r = s.acquire(n).await;
+                });
+            })
+        })
+        .collect();
+    loom::future::block_on(async {
+        let _r = s.acquire(1).await;
+    });
+    for h in hs {
+        h.join().unwrap();
+    }
+    assert_eq!(2, s.permits(), "C05: permits not conserved");
+}
+fn sem_mixed_fair() {
+    sem_mixed(true)
+}
+fn sem_mixed_unfair() {
+    sem_mixed(false)
+}
+
+/// acquire(3) with timeout || acquire(1) || release(1)   (defect D1a deadlocks here)
+fn sem_timeout(fair: bool) {
+    let s = Arc::new(GenericSemaphore::<LoomRaw>::new(fair, 0));
+    let _ = s.permits();
+    let s1 = s.clone();
+    let h1 = loom::thread::spawn(move || {
+        if let Some(mut r) = poll_once_and_drop(s1.acquire(3)) {
+            r.disarm();
+            panic!("C05: acquire(3) completed with at most 1 permit available");
+        }
+    });
+    let s2 = s.clone();
+    let h2 = loom::thread::spawn(move || {
+        loom::future::block_on(async {
+            let mut r = s2.acquire(1).await;
+            r.disarm();
+        });
+    });
+    s.release(1);
+    h1.join().unwrap();
+    h2.join().unwrap();
+    assert_eq!(0, s.permits(), "C05: permits not conserved");
+}
+fn sem_timeout_fair() {
+    sem_timeout(true)
+}
+fn sem_timeout_unfair() {
+    sem_timeout(false)
+}
+
+/// unfair: acquire(2) || acquire(1) || release(2) + try_acquire(1) thief   (defect D1b)
+fn sem_thief() {
+    let s = Arc::new(GenericSemaphore::<LoomRaw>::new(false, 0));
+    let _ = s.permits();
+    let s1 = s.clone();
+    let h1 = loom::thread::spawn(move || {
+        loom::future::block_on(async {
+            let _r = s1.acquire(2).await;
+        });
+    });
+    let s2 = s.clone();
+    let h2 = loom::thread::spawn(move || {
+        loom::future::block_on(async {
+            let _r = s2.acquire(1).await;
+        });
+    });
+    s.release(2);
+    if let Some(r) = s.try_acquire(1) {
+        drop(r);
+    }
+    h1.join().unwrap();
+    h2.join().unwrap();
+    assert_eq!(2, s.permits(), "C05: permits not conserved");
+}
+
+fn sem_shared_mixed() {
+    let s = GenericSharedSemaphore::<LoomRaw>::new(true, 1);
+    let _ = s.permits();
+    let hs: Vec<_> = [1usize, 1]
+        .iter()
+        .map(|&n| {
+            let s = s.clone();
+            loom::thread::spawn(move || {
+                loom::future::block_on(async {
+                    let _r = s.acquire(n).await;
+                });
+            })
+        })
+        .collect();
+    if let Some(r) = poll_once_and_drop(s.acquire(1)) {
+        drop(r);
+    }
+    for h in hs {
+        h.join().unwrap();
+    }
+    assert_eq!(1, s.permits(), "C05: permits not conserved");
+}
+
+// ------------------------------------------------------------------ event
+
+fn event_set_reset_set() {
+    let e = Arc::new(GenericManualResetEvent::<LoomRaw>::new(false));
+    let _ = e.is_set();
+    let e1 = e.clone();
+    let h1 = loom::thread::spawn(move || {
+        loom::future::block_on(async {
+            e1.wait().await;
+        });
+    });
+    let e2 = e.clone();
+    let h2 = loom::thread::spawn(move || {
+        let _ = poll_once_and_drop(e2.wait());
+    });
+    e.set();
+    e.reset();
+    e.set();
+    h1.join().unwrap();
+    h2.join().unwrap();
+    assert!(e.is_set());
+}
+
+// ------------------------------------------------------------------- mpmc
+
+/// two producers, one consumer; per-producer order must survive
+fn mpmc_2p1c(cap: usize, second: bool) {
+    let (tx, rx) = sh::generic_channel::<LoomRaw, u32, FixedHeapBuf<u32>>(cap);
+    let _ = rx.try_receive();
+    let hs: Vec<_> = (0..2u32)
+        .map(|i| {
+            let tx = tx.clone();
+            loom::thread::spawn(move || {
+                loom::future::block_on(async {
+                    tx.send(i * 10).await.unwrap();
+                    if i == 0 && second {
+                        tx.send(i * 10 + 1).await.unwrap();
+                    }
+                });
+            })
+        })
+        .collect();
+    drop(tx);
+    let mut got = vec![];
+    loom::future::block_on(async {
+        while let Some(v) = rx.receive().await {
+            got.push(v);
+        }
+    });
+    for h in hs {
+        h.join().unwrap();
+    }
+    let p0: Vec<u32> = got.iter().copied().filter(|v| *v < 10).collect();
+    let want0: Vec<u32> = if second { vec![0, 1] } else { vec![0] };
+    assert_eq!(p0, want0, "C09: per-producer order violated: {:?}", got);
+    got.sort();
+    let mut all = want0.clone();
+    all.push(10);
+    assert_eq!(got, all, "C08: values lost or duplicated");
+}
+fn mpmc_2p1c_cap0() {
+    mpmc_2p1c(0, false)
+}
+fn mpmc_2p1c_cap1() {
+    mpmc_2p1c(1, true)
+}
+fn mpmc_2p1c_cap0_seq() {
+    mpmc_2p1c(0, true)
+}
+
+/// one producer, two consumers one of which abandons a pending receive
+fn mpmc_abandon(cap: usize) {
+    let (tx, rx) = sh::generic_channel::<LoomRaw, u32, FixedHeapBuf<u32>>(cap);
+    let _ = rx.try_receive();
+    let rx2 = rx.clone();
+    let h1 = loom::thread::spawn(move || match poll_once_and_drop(rx2.receive()) {
+        Some(v) => v,
+        None => None,
+    });
+    let h2 = loom::thread::spawn(move || {
+        loom::future::block_on(async {
+            tx.send(7).await.unwrap();
+        });
+    });
+    let v = loom::future::block_on(async { rx.receive().await });
+    let a = h1.join().unwrap();
+    h2.join().unwrap();
+    assert!((a == Some(7)) ^ (v == Some(7)), "C08: exactly one consumer must get the value: {:?} {:?}", a, v);
+}
+fn mpmc_abandon_cap0() {
+    mpmc_abandon(0)
+}
+fn mpmc_abandon_cap1() {
+    mpmc_abandon(1)
+}
+
+/// receiver awaits while the last of two sender clones is dropped on two other threads
+fn mpmc_last_sender_closes() {
+    let (tx, rx) = sh::generic_channel::<LoomRaw, u32, FixedHeapBuf<u32>>(1);
+    let _ = rx.try_receive();
+    let tx2 = tx.clone();
+    let h1 = loom::thread::spawn(move || {
+        drop(tx);
+    });
+    let h2 = loom::thread::spawn(move || {
+        let _ = tx2.try_send(5);
+        drop(tx2);
+    });
+    let mut got = vec![];
+    loom::future::block_on(async {
+        while let Some(v) = rx.receive().await {
+            got.push(v);
+        }
+    });
+    h1.join().unwrap();
+    h2.join().unwrap();
+    assert_eq!(got, vec![5], "C11: accepted value must be delivered before None");
+}
+
+// ---------------------------------------------------------------- oneshot
+
+fn oneshot_competing() {
+    let c = Arc::new(GenericOneshotChannel::<LoomRaw, u32>::new());
+    let _ = poll_once_and_drop(c.receive());
+    let hs: Vec<_> = (0..2)
+        .map(|_| {
+            let c = c.clone();
+            loom::thread::spawn(move || loom::future::block_on(async { c.receive().await }))
+        })
+        .collect();
+    assert!(c.send(9).is_ok(), "C12: first send must succeed");
+    assert!(c.send(10).is_err(), "C12: second send must fail");
+    let rs: Vec<Option<u32>> = hs.into_iter().map(|h| h.join().unwrap()).collect();
+    assert_eq!(rs.iter().filter(|r| **r == Some(9)).count(), 1, "C12: exactly one receiver gets the value: {:?}", rs);
+    assert!(rs.iter().all(|r| *r == Some(9) || r.is_none()));
+}
+
+fn broadcast_all() {
+    let c = Arc::new(GenericOneshotBroadcastChannel::<LoomRaw, u32>::new());
+    let _ = poll_once_and_drop(c.receive());
+    let hs: Vec<_> = (0..2)
+        .map(|_| {
+            let c = c.clone();
+            loom::thread::spawn(move || loom::future::block_on(async { c.receive().await }))
+        })
+        .collect();
+    assert!(c.send(9).is_ok());
+    let late = loom::future::block_on(async { c.receive().await });
+    assert_eq!(late, Some(9));
+    for h in hs {
+        assert_eq!(h.join().unwrap(), Some(9), "C12: every receiver gets the value");
+    }
+}
+
+// ------------------------------------------------------------------ state
+
+fn state_followers() {
+    let c = Arc::new(GenericStateBroadcastChannel::<LoomRaw, u32>::new());
+    let _ = c.try_receive(StateId::new());
+    let hs: Vec<_> = (0..2)
+        .map(|_| {
+            let c = c.clone();
+            loom::thread::spawn(move || {
+                loom::future::block_on(async {
+                    let mut id = StateId::new();
+                    let mut last = 0;
+                    while let Some((nid, v)) = c.receive(id).await {
+                        assert!(nid > id, "C13: id not increasing");
+                        assert!(v > last, "C13: value went backwards");
+                        id = nid;
+                        last = v;
+                    }
+                    last
+                })
+            })
+        })
+        .collect();
+    c.send(1).unwrap();
+    c.send(2).unwrap();
+    c.close();
+    for h in hs {
+        assert_eq!(h.join().unwrap(), 2, "C13: follower must converge on the latest state");
+    }
+}
+
+// ------------------------------------------------------------------ timer
+
+fn timer_two_waiters() {
+    CLK.0.store(0, Ordering::SeqCst);
+    let t = Arc::new(GenericTimerService::<LoomRaw>::new(&CLK));
+    let _ = t.next_expiration();
+    let hs: Vec<_> = [1u64, 2]
+        .iter()
+        .map(|&d| {
+            let t = t.clone();
+            loom::thread::spawn(move || {
+                loom::future::block_on(async {
+                    Timer::deadline(&*t, d).await;
+                    assert!(CLK.now() >= d, "C15: timer completed early");
+                });
+            })
+        })
+        .collect();
+    for now in 1..=2u64 {
+        CLK.0.store(now, Ordering::SeqCst);
+        t.check_expirations();
+    }
+    for h in hs {
+        h.join().unwrap();
+    }
+    assert_eq!(t.next_expiration(), None, "C15: heap not empty after all timers expired");
+}
+
+const SCENARIOS: &[(&str, &str, Scenario)] = &[
+    ("mutex_counter_fair", "C01,C02,C03", mutex_counter_fair),
+    ("mutex_counter_unfair", "C01,C02,C03", mutex_counter_unfair),
+    ("mutex_abandon_fair", "C01,C02,C03", mutex_abandon_fair),
+    ("mutex_abandon_unfair", "C01,C02,C03", mutex_abandon_unfair),
+    ("sem_mixed_fair", "C01,C05,C06", sem_mixed_fair),
+    ("sem_mixed_unfair", "C01,C05,C06", sem_mixed_unfair),
+    ("sem_timeout_fair", "C01,C05,C06", sem_timeout_fair),
+    ("sem_timeout_unfair", "C01,C05,C06", sem_timeout_unfair),
+    ("sem_thief", "C05,C06", sem_thief),
+    ("sem_shared_mixed", "C01,C05,C06", sem_shared_mixed),
+    ("event_set_reset_set", "C01,C14", event_set_reset_set),
+    ("mpmc_2p1c_cap0", "C01,C08,C09,C10", mpmc_2p1c_cap0),
+    ("mpmc_2p1c_cap1", "C08,C09,C10", mpmc_2p1c_cap1),
+    ("mpmc_2p1c_cap0_seq", "thorough:C09,C10", mpmc_2p1c_cap0_seq),
+    ("mpmc_abandon_cap0", "C01,C08,C10", mpmc_abandon_cap0),
+    ("mpmc_abandon_cap1", "C01,C08,C10", mpmc_abandon_cap1),
+    ("mpmc_last_sender_closes", "C11", mpmc_last_sender_closes),
+    ("oneshot_competing", "C01,C12", oneshot_competing),
+    ("broadcast_all", "C12", broadcast_all),
+    ("state_followers", "C01,C13", state_followers),
+    ("timer_two_waiters", "C01,C15", timer_two_waiters),
+];
+
+fn main() {
+    let args: Vec<String> = std::env::args().collect();
+    match args.get(1).map(|s| s.as_str()) {
+        Some("list") => {
+            for (n, p, _) in SCENARIOS {
+                println!("{} {}", n, p);
+            }
+        }
+        Some("run") => {
+            let name = args.get(2).expect("scenario name");
+            let (_, _, f) = SCENARIOS.iter().find(|s| s.0 == name).unwrap_or_else(|| {
+                eprintln!("unknown scenario {}", name);
+                std::process::exit(2)
+            });
+            let pb = args.iter().position(|a| a == "--pb").and_then(|i| args.get(i + 1)).map(|s| s.as_str()).unwrap_or("2");
+            let mut b = loom::model::Builder::new();
+            b.preemption_bound = if pb == "none" { None } else { Some(pb.parse().expect("preemption bound")) };
+            b.max_branches = 20_000;
+            if let Some(d) = args.iter().position(|a| a == "--max-secs").and_then(|i| args.get(i + 1)) {
+                b.max_duration = Some(std::time::Duration::from_secs(d.parse().unwrap()));
+            }
+            static ITERS: AtomicUsize = AtomicUsize::new(0);
+            let t0 = std::time::Instant::now();
+            let f = *f;
+            b.check(move || {
+                ITERS.fetch_add(1, Ordering::Relaxed);
+                f();
+            });
+            let dt = t0.elapsed().as_secs_f64();
+            let capped = b.max_duration.map_or(false, |d| dt >= d.as_secs_f64());
+            println!("LOOM-OK scenario={} preemption_bound={} schedules={} wall_s={:.2} duration_cap_hit={}", name, pb, ITERS.load(Ordering::Relaxed), dt, capped);
+        }
+        _ => {
+            eprintln!("usage: filoom list | run <scenario> [--pb N|none] [--max-secs S]");
+            std::process::exit(2);
+        }
+    }
+}
